@@ -184,7 +184,7 @@ package encode
 //@   ensures[C08,C10] n <= 2147483647 ==> result1 == nil && result0 == n + uvarintLen(n) + 1 && blen(b) == L + result0
 //@   ensures[C08,C10] n <= 2147483647 && obj(v) != old(bobj(b)) ==> (forall i :: 0 <= i && i < n ==> bytesOf(bobj(b))[L + i] == old(v[i]))
 //@   ensures[C08,C10] n <= 2147483647 ==> isUvarint(bytesOf(bobj(b)), L + n, uvarintLen(n), n) && bytesOf(bobj(b))[L + result0 - 1] == 50
-//@   ensures[C08] n > 2147483647 ==> result1 != nil && blen(b) == L
+//@   ensures[C08] n > 2147483647 ==> result1 != nil && blen(b) == L && result0 == 0
 //@   ensures[C08] forall i :: 0 <= i && i < L ==> bytesOf(bobj(b))[i] == old(bytesOf(bobj(b)))[i]
 //@   ensures blen(b) >= old(blen(b)) && bobj(b) > 0
 
@@ -200,7 +200,7 @@ package encode
 //@   ensures[C08,C10] n <= 2147483647 && obj(s) != old(bobj(b)) ==> (forall i :: 0 <= i && i < n ==> bytesOf(bobj(b))[L + i] == old(s[i]))
 //@   ensures[C08] n <= 2147483647 ==> bytesOf(bobj(b))[L + n] == 0
 //@   ensures[C08,C10] n <= 2147483647 ==> isUvarint(bytesOf(bobj(b)), L + n + 1, uvarintLen(n), n) && bytesOf(bobj(b))[L + result0 - 1] == 60
-//@   ensures[C08] n > 2147483647 ==> result1 != nil && blen(b) == L
+//@   ensures[C08] n > 2147483647 ==> result1 != nil && blen(b) == L && result0 == 0
 //@   ensures[C08] forall i :: 0 <= i && i < L ==> bytesOf(bobj(b))[i] == old(bytesOf(bobj(b)))[i]
 //@   ensures blen(b) >= old(blen(b)) && bobj(b) > 0
 
@@ -231,7 +231,7 @@ package encode
 //@        smallTag(bytesOf(bobj(b)), L, k) == table[k].Tag && smallOff(bytesOf(bobj(b)), L, k) == table[k].Offset)
 //@   ensures[C08,C01] len(table) * fs <= 2147483647 && big ==> (forall k :: 0 <= k && k < len(table) ==>
 //@        bigTag(bytesOf(bobj(b)), L, k) == table[k].Tag && bigOff(bytesOf(bobj(b)), L, k) == table[k].Offset)
-//@   ensures[C08] len(table) * fs > 2147483647 ==> result1 != nil && blen(b) == L
+//@   ensures[C08] len(table) * fs > 2147483647 ==> result1 != nil && blen(b) == L && result0 == 0
 //@   ensures[C08] forall i :: 0 <= i && i < L ==> bytesOf(bobj(b))[i] == old(bytesOf(bobj(b)))[i]
 //@   loop 1 modifies uint8 at p
 //@   loop 1 invariant 0 - 1 <= rangeindex && rangeindex < len(table) && len(p) == size && cap(p) >= size && lo(p) == L && obj(p) == bobj(b)
@@ -252,7 +252,7 @@ package encode
 //@   ensures[C08,C01] len(table) * es <= 2147483647 ==> result1 == nil && result0 == len(table) * es && blen(b) == L + result0 && L >= 0
 //@   ensures[C08,C01] len(table) * es <= 2147483647 && !big && (forall k :: 0 <= k && k < len(table) ==> table[k].Offset <= 65535) ==> (forall k :: 0 <= k && k < len(table) ==> listSmallEnd(bytesOf(bobj(b)), L, k) == table[k].Offset)
 //@   ensures[C08,C01] len(table) * es <= 2147483647 && big ==> (forall k :: 0 <= k && k < len(table) ==> listBigEnd(bytesOf(bobj(b)), L, k) == table[k].Offset)
-//@   ensures[C08] len(table) * es > 2147483647 ==> result1 != nil && blen(b) == L
+//@   ensures[C08] len(table) * es > 2147483647 ==> result1 != nil && blen(b) == L && result0 == 0
 //@   ensures[C08] forall i :: 0 <= i && i < L ==> bytesOf(bobj(b))[i] == old(bytesOf(bobj(b)))[i]
 //@   loop 1 modifies uint8 at p
 //@   loop 1 invariant 0 - 1 <= rangeindex && rangeindex < len(table) && len(p) == size && cap(p) >= size && lo(p) == L && obj(p) == bobj(b)
@@ -279,7 +279,7 @@ package encode
 //@   ensures[C08,C01] ok ==> isUvarint(bytesOf(bobj(b)), L + ts, uvarintLen(dataSize), dataSize)
 //@        && isUvarint(bytesOf(bobj(b)), L + ts + uvarintLen(dataSize), uvarintLen(ts), ts)
 //@        && bytesOf(bobj(b))[L + result0 - 1] == ite(big, 81, 80)
-//@   ensures[C08] dataSize > 2147483647 ==> result1 != nil && blen(b) == L
+//@   ensures[C08] dataSize > 2147483647 ==> result1 != nil && blen(b) == L && result0 == 0
 //@   ensures[C08] 0 <= dataSize && dataSize <= 2147483647 && ts > 2147483647 ==> result1 != nil
 //@   ensures[C08] forall i :: 0 <= i && i < L ==> bytesOf(bobj(b))[i] == old(bytesOf(bobj(b)))[i]
 //@   ensures blen(b) >= old(blen(b)) && bobj(b) > 0
@@ -301,7 +301,7 @@ package encode
 //@   ensures[C08,C01] ok ==> isUvarint(bytesOf(bobj(b)), L + ts, uvarintLen(dataSize), dataSize)
 //@        && isUvarint(bytesOf(bobj(b)), L + ts + uvarintLen(dataSize), uvarintLen(ts), ts)
 //@        && bytesOf(bobj(b))[L + result0 - 1] == ite(big, 71, 70)
-//@   ensures[C08] dataSize > 2147483647 ==> result1 != nil && blen(b) == L
+//@   ensures[C08] dataSize > 2147483647 ==> result1 != nil && blen(b) == L && result0 == 0
 //@   ensures[C08] 0 <= dataSize && dataSize <= 2147483647 && ts > 2147483647 ==> result1 != nil
 //@   ensures[C08] forall i :: 0 <= i && i < L ==> bytesOf(bobj(b))[i] == old(bytesOf(bobj(b)))[i]
 //@   ensures blen(b) >= old(blen(b)) && bobj(b) > 0
@@ -329,5 +329,16 @@ package encode
 //@   let L = blen(b)
 //@   ensures[C08,C10] result1 == nil && result0 == 9 && blen(b) == L + 9
 //@   ensures[C08,C10] f64OfBits(be64(bytesOf(bobj(b)), L)) == v && bytesOf(bobj(b))[L + 8] == 41
+//@   ensures[C08] forall i :: 0 <= i && i < L ==> bytesOf(bobj(b))[i] == old(bytesOf(bobj(b)))[i]
+//@   ensures blen(b) >= old(blen(b)) && bobj(b) > 0
+//@ func EncodeBin128Bytes
+//@   safety[C08]
+//@   requires b != nil
+//@   modifies buffer.len at b
+//@   modifies buffer.obj at b
+//@   modifies uint8
+//@   let L = blen(b)
+//@   ensures[C08,C10] result2 == nil && result1 == 17 && blen(b) == L + 17 && obj(result0) == bobj(b) && off(result0) == L && len(result0) == 17
+//@   ensures[C08,C10] (forall i :: 0 <= i && i < 16 ==> bytesOf(bobj(b))[L + i] == v[i]) && bytesOf(bobj(b))[L + 16] == 31
 //@   ensures[C08] forall i :: 0 <= i && i < L ==> bytesOf(bobj(b))[i] == old(bytesOf(bobj(b)))[i]
 //@   ensures blen(b) >= old(blen(b)) && bobj(b) > 0
